@@ -2,6 +2,7 @@ package bubble
 
 import (
 	"math/rand"
+	"os"
 	"sync"
 	"testing"
 
@@ -15,6 +16,11 @@ func runWatchable(t *testing.T, rng *rand.Rand) ([]Ev, bool, string) {
 	for i := range plan {
 		plan[i] = rng.Intn(100)
 	}
+	return runWatchablePlan(t, plan)
+}
+
+func runWatchablePlan(t *testing.T, plan []int) ([]Ev, bool, string) {
+	plan = append([]int{}, plan...)
 	return bubble(t, func(r *Run) {
 		var w xsync.Watchable[int]
 		type ch struct {
@@ -92,6 +98,10 @@ func runFuture(t *testing.T, rng *rand.Rand) ([]Ev, bool, string) {
 	for i := range plan {
 		plan[i] = rng.Intn(100)
 	}
+	return runFuturePlan(t, plan)
+}
+
+func runFuturePlan(t *testing.T, plan []int) ([]Ev, bool, string) {
 	return bubble(t, func(r *Run) {
 		f := xsync.NewFuture[int]()
 		filled := false
@@ -288,6 +298,34 @@ func TestWF(t *testing.T) {
 	w := newTraceWriter(envStr("VH_OUT", "/tmp/wf.ndjson"))
 	n := envInt("VH_N", 100)
 	runs, leaks := 0, 0
+	if f := os.Getenv("VH_SCHED"); f != "" { // plans generated by TLC from WFEnv.tla: replayed literally
+		var scheds []struct {
+			Kind  string
+			Steps []struct{ C int }
+		}
+		readJSON(t, f, &scheds)
+		for _, s := range scheds {
+			plan := []int{}
+			for _, st := range s.Steps {
+				plan = append(plan, st.C)
+			}
+			var evs []Ev
+			var leak bool
+			var msg string
+			if s.Kind == "future" {
+				evs, leak, msg = runFuturePlan(t, plan)
+			} else {
+				evs, leak, msg = runWatchablePlan(t, plan)
+			}
+			if leak {
+				leaks++
+			}
+			writeRuns(w, &runs, evs, leak, msg, Ev{})
+		}
+		w.close()
+		report(Ev{"engine": "bubble", "subject": "wf", "runs": runs, "events": w.n, "leaks": leaks, "source": "tlc-schedules"})
+		return
+	}
 	for i := 0; i < n; i++ {
 		var evs []Ev
 		var leak bool
